@@ -378,7 +378,18 @@ impl MetaMonitor {
         };
         let mut facts = crate::gen::gen_facts(rng, &cfg);
         jaxable(&mut facts);
-        let facts = drive::permute(&facts, OrderMode::Shuffled, rng);
+        let mut facts = drive::permute(&facts, OrderMode::Shuffled, rng);
+        // hp.obo has no limit on the length of a name (the binary format has): a sixth of the cases
+        // carry term names beyond 255 bytes, also made of multi-byte characters
+        if rng.chance(1, 6) {
+            for _ in 0..rng.urange(1, 2) {
+                let i = rng.usize_below(facts.terms.len());
+                let unit = *rng.pick(&["long name ", "漢字の名前", "längerer Name "]);
+                facts.terms[i].name = format!("{} {}", unit.repeat(rng.urange(30, 60)), facts.terms[i].id).trim().to_string();
+            }
+            out.bucket("term_name_over_255_bytes");
+        }
+        let long_names = facts.terms.iter().any(|t| t.name.len() > 255);
         let view = jax_view(&facts);
         let transitive = idx % 2 == 1;
         let opts = JaxOpts { shuffle: true, noise: idx % 5 != 0, gene_header_style: (idx % 3) as u8 };
@@ -423,7 +434,10 @@ impl MetaMonitor {
         };
         let (_m, obs, diffs) = walk_and_diff(&view, true, &ont, out);
         report("C09", "vs_model", &diffs, out);
-        // cross-path identity: same facts through the v3 binary path
+        // cross-path identity: same facts through the v3 binary path (which cannot hold names > 255 bytes)
+        if long_names {
+            out.bucket("cross_path_binary_skipped_for_long_names");
+        } else {
         match drive::via_bytes(&view, 3).1 {
             Ok(o2) => {
                 let ids: Vec<u32> = view.terms.iter().map(|t| t.id).collect();
@@ -434,6 +448,7 @@ impl MetaMonitor {
                 out.bucket("cross_path/binary");
             }
             Err(_) => out.bucket("cross_path_binary_unavailable"),
+        }
         }
         // and through the Builder for facts it can express (no flags)
         if !view.terms.iter().any(|t| t.obsolete || t.replaced_by.is_some()) {
